@@ -195,3 +195,50 @@ func runPairPeerLeavesDuringAttachedHook(c *Ctx) {
 		_ = srv.Close()
 	}
 }
+
+// C14 — a dialer whose connections succeed but are refused by its own socket's protocol (a PAIR socket that already has
+// a peer) keeps trying like after any other failure; when the place becomes free its next attempt attaches and traffic
+// flows without application action.
+func runDialerRedialsAfterLocalRefusal(c *Ctx) {
+	for _, trn := range []string{"inproc", "tcp"} {
+		tr := transportNamed(trn)
+		a, _ := pair.NewSocket()
+		b, _ := pair.NewSocket()
+		s, _ := pair.NewSocket()
+		_ = b.SetOption(mangos.OptionRecvDeadline, 3*time.Second)
+		_ = s.SetOption(mangos.OptionSendDeadline, 3*time.Second)
+		la, erra := a.NewListener(r4addr(tr), nil)
+		lb, errb := b.NewListener(r4addr(tr), nil)
+		if erra != nil || errb != nil || la.Listen() != nil || lb.Listen() != nil {
+			_ = a.Close()
+			_ = b.Close()
+			_ = s.Close()
+			continue
+		}
+		bad := ""
+		if s.Dial(la.Address()) == nil {
+			time.Sleep(30 * time.Millisecond)
+			opts := map[string]interface{}{mangos.OptionDialAsynch: true, mangos.OptionReconnectTime: 20 * time.Millisecond, mangos.OptionMaxReconnectTime: 20 * time.Millisecond}
+			if s.DialOptions(lb.Address(), opts) == nil {
+				time.Sleep(120 * time.Millisecond) // several attempts, each refused by the socket's own protocol
+				_ = a.Close()                      // the place becomes free
+				done := make(chan error, 1)
+				go func() {
+					time.Sleep(100 * time.Millisecond)
+					done <- s.Send([]byte("to b"))
+				}()
+				got, err := b.Recv()
+				if err != nil || string(got) != "to b" {
+					bad = fmt.Sprintf("a PAIR socket connected to A; its second dialer (DIAL-ASYNCH, RECONNECT-TIME 20 ms) to B was refused by the socket itself while A was there; A went away; 3 s later B has still received nothing (%v %q): the dialer stopped trying after the refusal", err, got)
+				}
+			}
+		}
+		c.Class("dialer-redials-after-local-refusal "+tr.name, true)
+		if bad != "" {
+			c.Violate("dialer ("+tr.name+"): "+bad, map[string]interface{}{"transport": tr.name})
+		}
+		_ = s.Close()
+		_ = a.Close()
+		_ = b.Close()
+	}
+}
